@@ -185,6 +185,15 @@ theorem El.of_store_eq {s s' : Streams} (h1 : s'.store = s.store) (h2 : marker s
   mark := h2
   pres := by intro _ _ h; cases h
 
+/-- same slab (the id map may differ) -/
+theorem El.of_store_eq' {s s' : Streams} (h1 : ∀ k, s'.store.get? k = s.store.get? k)
+    (h3 : s'.store.nextKey = s.store.nextKey) (h2 : marker s' = marker s) : El none s s' where
+  nk := by rw [h3]; exact Nat.le_refl _
+  keep := fun k a h => Or.inl ⟨a, by rw [h1, h], ES.rfl_none a⟩
+  new := by intro k b h h'; rw [h1, h] at h'; cases h'
+  mark := h2
+  pres := by intro _ _ h; cases h
+
 theorem El.refl_none (s : Streams) : El none s s := .of_store_eq rfl rfl
 
 /-- replacing the entry of `b.key`, the marker untouched; `hl`: the label names no other entry -/
